@@ -50,6 +50,9 @@ ASSUMPTIONS = [
     "HttpPattern(host=...) cannot be constructed on Python 3 (TypeError in _compile_host_pattern): hosts are not generated",
     "POST/PUT/PATCH to HttpRpc need werkzeug (not installed): verbs are GET, DELETE, OPTIONS",
     "pattern addresses are pairwise non-overlapping; literal-versus-wildcard priority is not examined",
+    "explicit pattern addresses are regular expressions by example (examples/multiple_protocols escapes "
+    "the dot): only [a-z0-9/] and <name>/{name} placeholders are generated in them; an address left to "
+    "default to the method name is a literal name",
     "Application(...) may reject a spec for reasons other than routing (message type-name clashes, "
     "method-key clashes of same-named service classes); such specs are counted, not judged",
 ]
@@ -747,6 +750,7 @@ def run_case(case, rec):
     excusable = ref.type_name_clash() or ref.method_key_clash()
     base_ctor = None
     base_out = None
+    dup_reported = False
     napps = 0
     for order in orders_of(spec):
         pc = perm_class(order)
@@ -761,13 +765,14 @@ def run_case(case, rec):
             ctor = "raised"
         napps += 1
         cfails = []
+        if ctor == "ok" and dup and not dup_reported:
+            dup_reported = True
+            for n in ref.dups:
+                cfails.append(("C11|duplicate-name-accepted|%s" % ref.clash_kind(n),
+                               "%s: Application(...) accepted a spec in which %r all answer to the "
+                               "public name %r" % (where, ref.prim[n], n)))
         if base_ctor is None:
             base_ctor = ctor
-            if ctor == "ok" and dup:
-                for n in ref.dups:
-                    cfails.append(("C11|duplicate-name-accepted|%s" % ref.clash_kind(n),
-                                   "%s: Application(...) accepted a spec in which %r all answer to the "
-                                   "public name %r" % (where, ref.prim[n], n)))
         elif ctor != base_ctor:
             et, wh = F.exc_origin(ctor_exc) if ctor_exc is not None else ("none", "-")
             cfails.append(("C11|order-dependent|construction",
@@ -903,7 +908,7 @@ def specs(draw, tier="quick"):
             if c == 0:
                 ps.append({"address": None, "verb": draw(st.sampled_from(verbs))})
             elif c == 1:
-                ps.append({"address": "/p%d/q%s" % (j, draw(st.sampled_from(["", ".r", "x"]))),
+                ps.append({"address": "/p%d/q%s" % (j, draw(st.sampled_from(["", "r", "x"]))),
                            "verb": draw(st.sampled_from(verbs))})
             elif c == 2 and m.get("arg") == "str":
                 ps.append({"address": draw(st.sampled_from(["/p%d/<a>", "/p%d/{a}/t", "/p%d/r/<a>"])) % j,
@@ -1033,7 +1038,7 @@ def fixed_specs(prot):
                                                  {"address": "/p2/{a}/t", "verb": "DELETE"}]),
                   _m("M0", patterns=[{"address": "/p0/q", "verb": "DELETE"}])),
              _svc("C", _m("f.g", patterns=[{"address": None, "verb": None}]), _m("q"))])
-        add([_svc("A", _m("m0", patterns=[{"address": "/p0/q.r", "verb": None}]), _m("m0x")),
+        add([_svc("A", _m("m0", patterns=[{"address": "/p0/qr", "verb": None}]), _m("m0x")),
              _svc("B", _m("xm0", "int", patterns=[{"address": "/p1/q", "verb": "OPTIONS"}]))])
     return out
 
